@@ -12,7 +12,7 @@ dst = os.path.join(ROOT, "seeded", name)
 os.makedirs(dst, exist_ok=True)
 for f in os.listdir(src):
     p = os.path.join(src, f)
-    if os.path.isfile(p):
+    if os.path.isfile(p) and os.path.abspath(src) != os.path.abspath(dst):
         shutil.copy(p, dst)
 meta = {"property": prop, "name": name, "checks": {}}
 notes = os.path.join(dst, "notes.md")
